@@ -65,6 +65,11 @@ def items(tier, seed):
         for h in ("narrow-first", "add-last", "reobj"):
             for meth in (["SLSQP", "trust-constr"] if tier == "quick" else NLM):
                 its.append(("args", (m, meth, False, h)))
+    # the solve under test follows a solve at OTHER parameter values (parameters updated in between, nothing else edited)
+    for m in LM.solve_models(tier):
+        if LM.model_names(m)["params"]:
+            for meth in NLM:
+                its.append(("args", (m, meth, False, "param-update")))
     its.sort(key=lambda it: -(len(it[1][0]["cons"]) * 10 + (5 if it[1][1] in ("SLSQP", "auto") else 0)) if it[0] == "map" else -1000 if it[0] == "twin" else 0)
     return its
 
@@ -94,6 +99,8 @@ def args_obligations(model, method, planted=False, hist=None):
     res = []
     names = LM.model_names(model)
     allv = names["vars"] + names["syms"] + names["params"]
+    if hist == "param-update":
+        allv = allv + [n + "@old" for n in names["params"]]
     val = K.sym_val(allv)
     tag = f"{model['tag']}/{method}" + (f"/after {hist}" if hist else "")
     form = model["tag"] + (f"|{hist}" if hist else "")
@@ -183,6 +190,8 @@ def replay(payload):
     method = payload["method"]
     names = LM.model_names(model)
     allv = names["vars"] + names["syms"] + names["params"]
+    if payload.get("hist") == "param-update":
+        allv = allv + [n + "@old" for n in names["params"]]
     vals = {k: float(Fraction(v)) for k, v in payload.get("values", {}).items()}
     rng = random.Random(21)
     for attempt in range(8):
